@@ -29,6 +29,16 @@ from .gen_sampler import norm_key, is_complement, complements
 # generation
 # ---------------------------------------------------------------------------
 
+# resolver-side C09 monitor: free ions that need hydrogens of their own, salts, unused descriptors
+ION_STRINGS = [
+    "{[#A]}.{#A=CC(=O)[O-].[NH4+]}",
+    "{[#A][#B]}.{#A=CC[$].[OH-],#B=[$]C[NH3+]}",
+    "{[#A][#B]}.{#A=OC[$].[OH3+],#B=[$]CC(=O)[O-]}",
+    "{[#A]|3}.{#A=[$]CC[$][N+](C)(C)C.[Cl-]}",
+    "{[#A][#B]}.{#A=[$]CC[$][$],#B=[$]C[O-].[Na+]}",
+    "{[#A]}.{#A=[NH4+].[OH-]}",
+]
+
 def generate(run_seed, prop, tier="quick"):
     rng = rng_for("sampler-scenario", run_seed)
     all_atom = True if prop == "C09" else None
@@ -58,8 +68,11 @@ def generate(run_seed, prop, tier="quick"):
             ops.append({"op": "cs", "cfg": cfg, "seed": rng.choice(seeds), "abort_at": rng.randint(1, 900)})
         elif faults["cotenant"] and rng.random() < 0.5:
             ops.append({"op": "co_resolve", "cfg": cfg})
-        elif faults["ownparse"]:
+        elif faults["ownparse"] and rng.random() < 0.6:
             ops.append({"op": "own_parse_edit", "cfg": cfg, "how": rng.choice(["rebuild_h", "rebuild_h", "attrs", "clear_bonding"])})
+        elif faults["ownparse"]:
+            ops.append({"op": "helper_call", "how": rng.choice(["compute_mass_plain", "rebuild_h_plain", "both"]),
+                        "smiles": rng.choice(["CCO", "c1ccccc1C", "CC(=O)[O-]", "C#N"])})
         else:
             ops.append({"op": "cs", "cfg": cfg, "seed": rng.choice(seeds)})
     # make sure at least one seeded op is repeated later in the history
@@ -71,6 +84,8 @@ def generate(run_seed, prop, tier="quick"):
                 "entropy": entropy, "ops": ops, "faults_enabled": sorted(k for k, v in faults.items() if v)}
     if prop == "C09":
         scenario["resolver_items"] = [gen_mol.build_item(rng, kind="atomistic", weights=rng.random() < 0.5) for _ in range(rng.choice([1, 2]))]
+        if rng.random() < 0.3:
+            scenario["resolver_strings"] = [rng.choice(ION_STRINGS)]
     return scenario
 
 
@@ -219,6 +234,11 @@ def check_molecule(mol, cfg, templates, masses, target, start_fragment, out, sta
     if n == 0:
         violate("C16.connected", "sample() returned an empty graph")
         return
+    # -- valence (C09 / C16 last clause): independent of the structural oracles below ------------
+    if cfg["all_atom"]:
+        for detail in check_valence(mol, stats=stats):
+            violate("C09.valence C16.valence", detail)
+        stats["valence_graphs"] = stats.get("valence_graphs", 0) + 1
     keys = list(mol.nodes)
     if set(keys) != set(range(n)) or not all(isinstance(k, int) for k in keys):
         violate("C16.numbering", "node keys are not 0..n-1")
@@ -375,11 +395,6 @@ def check_molecule(mol, cfg, templates, masses, target, start_fragment, out, sta
         if positive and len(added) > math.ceil(target / min(positive)) + 1:
             violate("C17.stopping", "%d growth steps for target %g exceed ceil(target / smallest mass %g)" % (len(added), target, min(positive)))
     stats["copies"] = stats.get("copies", 0) + len(names)
-    # -- valence (C09 / C16 last clause) --------------------------------------------------------
-    if cfg["all_atom"]:
-        for detail in check_valence(mol, stats=stats):
-            violate("C09.valence C16.valence", detail)
-        stats["valence_graphs"] = stats.get("valence_graphs", 0) + 1
 
 
 # ---------------------------------------------------------------------------
@@ -544,6 +559,15 @@ def run_history(scenario, only=None):
             elif kind == "clock_jump":
                 clock.jump(op["delta"])
                 event["out"] = "ok"
+            elif kind == "helper_call":
+                # another part of the host program uses the package's public helpers on plain pysmiles graphs
+                import pysmiles
+                from cgsmiles.pysmiles_utils import rebuild_h_atoms, compute_mass
+                if op["how"] in ("compute_mass_plain", "both"):
+                    compute_mass(pysmiles.read_smiles(op["smiles"]))
+                if op["how"] in ("rebuild_h_plain", "both"):
+                    rebuild_h_atoms(pysmiles.read_smiles(op["smiles"]))
+                event["out"] = "ok"
             elif kind == "own_parse_edit":
                 # a user parses the same fragment string for their own purposes and works on the result
                 # (e.g. completes the hydrogens of each fragment with the public helper, as the test-suite does);
@@ -597,6 +621,24 @@ def run_history(scenario, only=None):
         stats["entropy_edges"] = simrandom.edges_used
         stats["seed_calls"] = len(simrandom.seed_calls)
     return {"events": events, "violations": violations, "stats": stats}
+
+
+def resolve_strings(strings):
+    """Resolver-side C09 monitor on curated strings (free ions, salts, surplus descriptors)."""
+    from cgsmiles.resolve import MoleculeResolver
+    from .valence import check_valence
+    out = []
+    stats = {}
+    for text in strings:
+        try:
+            _, fine = MoleculeResolver.from_string(text, last_all_atom=True).resolve_all()
+        except Exception:  # noqa
+            stats["resolver_items_error"] = stats.get("resolver_items_error", 0) + 1
+            continue
+        for detail in check_valence(fine, explicit_h=True, stats=stats):
+            out.append({"oracle": "C09.valence", "detail": "resolver output of %s: %s" % (text, detail), "event": None})
+        stats["resolver_graphs"] = stats.get("resolver_graphs", 0) + 1
+    return {"violations": out, "stats": stats}
 
 
 def resolve_items(items):
@@ -656,6 +698,12 @@ def execute(scenario):
             result["violations"].append(dict(viol, where="resolver-side monitor"))
         for key, value in extra["stats"].items():
             sim["stats"][key] = sim["stats"].get(key, 0) + value
+    if sc.get("resolver_strings"):
+        extra = fork_call(resolve_strings, (sc["resolver_strings"],), timeout=300)
+        for viol in extra["violations"]:
+            result["violations"].append(dict(viol, where="resolver-side monitor (curated strings)"))
+        for key, value in extra["stats"].items():
+            sim["stats"][key] = sim["stats"].get(key, 0) + value
     stats = result["stats"]
     stats.update(sim["stats"])
     events = sim["events"]
@@ -678,6 +726,8 @@ def execute(scenario):
             stats["fault:clock-jump:fired"] = stats.get("fault:clock-jump:fired", 0) + 1
         if ev["op"] == "co_resolve":
             stats["fault:cotenant:fired"] = stats.get("fault:cotenant:fired", 0) + 1
+        if ev["op"] == "helper_call":
+            stats["fault:foreign-helper-call:fired"] = stats.get("fault:foreign-helper-call:fired", 0) + 1
         if ev["op"] == "own_parse_edit":
             stats["fault:edit-own-parse:fired"] = stats.get("fault:edit-own-parse:fired", 0) + 1
     if stats.get("entropy_edges"):
@@ -731,6 +781,10 @@ def shrink_candidates(scenario):
     if sc.get("resolver_items"):
         new = copy.deepcopy(sc)
         new["resolver_items"] = []
+        yield new
+    if sc.get("resolver_strings"):
+        new = copy.deepcopy(sc)
+        new["resolver_strings"] = []
         yield new
 
 
